@@ -65,3 +65,164 @@ Proof.
   (split; [|split; [reflexivity|intros v H; vm_compute in H; discriminate]]); try exact I.
   unfold enc_canon. split; [vm_compute; discriminate|vm_compute; reflexivity].
 Qed.
+
+(* ======================= all output paths, any number of renders, edits in between =======================
+   coq/theories/Paths.v: WriteTo / Write / WriteToSkipMiddleware / WriteToFile / WriteToTempFile / Send as
+   one render into a sink (path_view: what the path delivers — the server commits the rendering with a
+   final CRLF), NewReader / UpdateReader / Reader.Read, edits (setter and builder calls).  Every
+   rendering operation carries the oracle draws it would consume (time, message id, boundaries, wrapper
+   boundary of a signed message); [render_plain] / [render_signed signer] is the render function. *)
+From Verif Require Import Smime Builder Setters Paths.
+From VerifProofs Require Import WriterProofs SmimeProofs SmimeMainProofs CompleteOutputProofs PathsProofs.
+
+(* After ANY first render (destination k1, successful or not), any number of operations through any
+   mix of paths behaves like the reference machine in which every render is the FIRST render's function
+   of the destination (ref_ops: the later draws are never looked at, the message never changes): same
+   outputs — bytes, counts, verdicts — and the same final state, including every Reader read. *)
+Theorem C11_paths_agree : forall (o1 : oracle) (m : msg) (k1 : sink) (ops : list op) (e : enc) (rd : option reader),
+  files_ok m -> clean (resolve (o_date o1) (o_msgid o1) (o_rb o1) m) ->
+  forallb (fun x => negb (is_edit x)) ops = true ->
+  let m1 := rr_msg (render_plain o1 m k1) in
+  run_ops render_plain (mkps (mkb e m1) rd) ops =
+  (mkps (mkb e m1) (fst (ref_ops (first_plain o1 m) rd ops)), snd (ref_ops (first_plain o1 m) rd ops)).
+Proof. exact paths_agree. Qed.
+Print Assumptions C11_paths_agree.
+
+(* … and each of those renders, whenever it reports success — on whatever destination (file, DATA
+   writer, buffer; limited or not) — delivered the complete first rendering *)
+Theorem C11_success_is_first_render : forall (o1 : oracle) (m : msg) (k : sink),
+  fresh_sink k -> rr_err (render_plain o1 m k) = false ->
+  rr_out (render_plain o1 m k) = rr_out (render_plain o1 m unlimited) /\
+  rr_n (render_plain o1 m k) = length (rr_out (render_plain o1 m unlimited)) /\
+  rr_err (render_plain o1 m unlimited) = false.
+Proof. exact success_is_first_render. Qed.
+Print Assumptions C11_success_is_first_render.
+
+(* the Reader: what has been read is always a prefix of the buffer; reading with non-empty buffers
+   until the data is exhausted returns exactly the buffer, for any read sizes *)
+Theorem C11_reader_prefix : forall (sizes : list nat) (rd : reader),
+  rd_err rd = false -> exists rest, drain rd sizes ++ rest = rd_buf rd.
+Proof. exact drain_prefix. Qed.
+Print Assumptions C11_reader_prefix.
+
+Theorem C11_reader_drain_all : forall (sizes : list nat) (rd : reader),
+  rd_err rd = false -> Forall (fun n => 0 < n)%nat sizes -> (length (rd_buf rd) <= length sizes)%nat ->
+  drain rd sizes = rd_buf rd.
+Proof. exact drain_all. Qed.
+Print Assumptions C11_reader_drain_all.
+
+(* UpdateReader replaces the buffer AND the error field: no stale error survives it *)
+Theorem C11_update_reader_fresh : forall (rf : oracle -> msg -> sink -> rres) (st : pstate) (o : oracle) (rd0 : reader),
+  ps_rd st = Some rd0 ->
+  ps_rd (fst (run_op rf st (OUpdateReader o))) =
+  Some (mkrd (rr_out (rf o (b_msg (ps_b st)) unlimited)) (rr_err (rf o (b_msg (ps_b st)) unlimited))).
+Proof. exact update_reader_fresh. Qed.
+Print Assumptions C11_update_reader_fresh.
+
+(* S/MIME: the same with write_to_signed; the only draw a later render still uses is the wrapper
+   boundary (it is not cached) — the signed entity never depends on it, nor on the destination *)
+Theorem C11_signed_paths_agree : forall (signer : bytes -> bytes) (o1 : oracle) (m : msg) (k1 : sink) (ops : list op) (e : enc) (rd : option reader),
+  files_ok m -> clean (resolve (o_date o1) (o_msgid o1) (o_rb o1) m) ->
+  forallb (fun x => negb (is_edit x)) ops = true ->
+  let m1 := rr_msg (render_signed signer o1 m k1) in
+  run_ops (render_signed signer) (mkps (mkb e m1) rd) ops =
+  (mkps (mkb e m1) (fst (ref_ops (first_signed signer o1 m) rd ops)), snd (ref_ops (first_signed signer o1 m) rd ops)).
+Proof. exact signed_paths_agree. Qed.
+Print Assumptions C11_signed_paths_agree.
+
+Theorem C11_signed_same_entity : forall (signer : bytes -> bytes) (o1 : oracle) (m : msg) (sb : bytes) (k : sink) (sb' : bytes) (k' : sink),
+  rr_input (first_signed signer o1 m sb k) = rr_input (first_signed signer o1 m sb' k').
+Proof. exact signed_same_entity. Qed.
+Print Assumptions C11_signed_same_entity.
+
+Theorem C11_signed_success_is_first_render : forall (signer : bytes -> bytes) (o1 : oracle) (m : msg) (sb : bytes) (k : sink),
+  fresh_sink k -> rr_err (first_signed signer o1 m sb k) = false ->
+  rr_out (first_signed signer o1 m sb k) = rr_out (first_signed signer o1 m sb unlimited) /\
+  rr_n (first_signed signer o1 m sb k) = length (rr_out (first_signed signer o1 m sb unlimited)).
+Proof. exact signed_success_is_first_render. Qed.
+Print Assumptions C11_signed_success_is_first_render.
+
+(* render; edit; render.  The second render is a render of the edited message (run_op, OEdit) in which
+   what the first render generated is still in place: Date and Message-ID, the boundary of every
+   multipart kind that was in use, and for every file of the first render its cached headers and its
+   transfer encoding.  keeps_cached excludes Reset and SetGenHeader on Date / Message-ID. *)
+Theorem C11_edits_then_render : forall (o1 : oracle) (m : msg) (e : enc) (edits : list cop) (o2 : oracle),
+  files_ok m -> clean (resolve (o_date o1) (o_msgid o1) (o_rb o1) m) ->
+  forallb keeps_cached edits = true ->
+  let z1 := resolve (o_date o1) (o_msgid o1) (o_rb o1) m in
+  let m1 := z_msg z1 in
+  let m2 := b_msg (run_calls (mkb e m1) edits) in
+  let z2 := resolve (o_date o2) (o_msgid o2) (o_rb o2) m2 in
+  (forall k, cached_key k -> exists v, first_val k (m_gen m1) = Some v /\ first_val k (m_gen (z_msg z2)) = Some v) /\
+  (has_mixed m = true -> m_bmixed (z_msg z2) = m_bmixed m1) /\
+  (has_related m = true -> m_brelated (z_msg z2) = m_brelated m1) /\
+  (has_alt m = true -> m_balt (z_msg z2) = m_balt m1) /\
+  map (file_headers (m_wenc m2) false) (m_embeds m1) = z_embeds z1 /\
+  map (file_headers (m_wenc m2) true) (m_attach m1) = z_attach z1.
+Proof. exact edits_then_render. Qed.
+Print Assumptions C11_edits_then_render.
+
+(* ---- instances ---- *)
+Definition o_a : oracle := mkor (bs "d") (bs "i") ex_rb (bs "SB1").
+Definition o_b : oracle := mkor (bs "another date") (bs "another id") [bs "x1x1"; bs "x2x2"; bs "x3x3"] (bs "SB2").
+Definition c11_ops : list op :=
+  [ORender PWrite o_b unlimited; ORender PFile o_b (fail_at 100 false); ONewReader o_b; ORead 7; ORead 1] ++
+  repeat (ORead 300) 12 ++
+  [ORender PSend o_b unlimited; ORender PTempFile o_b (fail_at 0 true); OUpdateReader o_b; ORead 3] ++
+  repeat (ORead 250) 14 ++ [ORead 1; ORender PSkipMw o_b unlimited].
+
+Definition full_outputs (outs : list output) : list bytes :=
+  flat_map (fun x => match x with OutRender PSend d _ false _ => [] | OutRender _ d _ false _ => [d] | _ => [] end) outs.
+Definition read_data (outs : list output) : bytes :=
+  flat_map (fun x => match x with OutRead d RdOk => d | _ => [] end) outs.
+
+(* after a first render into a destination that fails at byte 40: three successful full renders through
+   other paths, two failed ones, two Reader fills drained with odd sizes — every successful output is the
+   first render's, with the draws of the first render, and the Reader delivered it twice *)
+Example C11_paths_example :
+  let R := r_out (write_to (bs "d") (bs "i") ex_rb ex_msg unlimited) in
+  let m1 := rr_msg (render_plain o_a ex_msg (fail_at 40 false)) in
+  let outs := snd (run_ops render_plain (mkps (mkb EncQP m1) None) c11_ops) in
+  full_outputs outs = [R; R] /\ read_data outs = R ++ R /\
+  existsb (fun x => match x with OutRender PSend d _ false _ => bytes_eqb d (data_canon R) | _ => false end) outs = true /\
+  length (filter (fun x => match x with OutRender _ _ _ true _ => true | _ => false end) outs) = 2%nat.
+Proof. vm_compute. repeat split; reflexivity. Qed.
+
+(* a signed message: later renders with other wrapper boundaries sign the same entity *)
+Example C11_signed_example :
+  let sg := fun inp : bytes => bs "SIG" in
+  let m1 := rr_msg (render_signed sg o_a ex_msg unlimited) in
+  let outs := snd (run_ops (render_signed sg) (mkps (mkb EncQP m1) None) [ORender PWriteTo o_b unlimited; ORender PFile o_a unlimited]) in
+  match outs with
+  | [OutRender _ d1 _ false (Some i1); OutRender _ d2 _ false (Some i2)] =>
+      i1 = i2 /\ d2 = rr_out (render_signed sg o_a ex_msg unlimited) /\ d1 <> d2
+  | _ => False
+  end.
+Proof. vm_compute. repeat split; try reflexivity. discriminate. Qed.
+
+(* edits between renders: Subject, a third alternative, a second attachment *)
+Definition c11_edits : list cop :=
+  [CS (SSubject (bs "edited")); CB (BAddAlt (bs "text/x-added") None None [] (mkprod [bs "added"] false));
+   CB (BAttach (file_of (bs "second.bin") (bs "application/octet-stream") None [] None (mkprod [bs "more"] false)))].
+Example C11_edits_example :
+  forallb keeps_cached c11_edits = true /\
+  let m1 := rr_msg (render_plain o_a ex_msg unlimited) in
+  let outs := snd (run_ops render_plain (mkps (mkb EncQP m1) None) (map OEdit c11_edits ++ [ORender PWriteTo o_b unlimited])) in
+  match last outs OutEdit with
+  | OutRender _ d _ false _ =>
+      occurs (bs "Date: d" ++ crlf) d = true /\ occurs (bs "Message-ID: i" ++ crlf) d = true /\
+      occurs (bs "boundary=b1b1") d = true /\ occurs (bs "boundary=b2b2") d = true /\ occurs (bs "boundary=b3b3") d = true /\
+      occurs (bs "Subject: edited") d = true /\ occurs (bs "second.bin") d = true /\ occurs (bs "x1x1") d = false
+  | _ => False
+  end.
+Proof. split; vm_compute; repeat split; reflexivity. Qed.
+
+(* the file header caches win over later changes of a *File's fields (Name, Desc, Enc are public fields;
+   there is no builder call for such an edit): after the first render a renamed file still carries the
+   headers of its first render — observed on the real code as well; documented, outside the property's
+   builder-call quantifier *)
+Example C11_file_field_edit_ignored :
+  let f1 := fst (file_headers 113 true (ex_file None)) in
+  let renamed := mkfile (bs "renamed.txt") (f_mime f1) (Some Enc8bit) (f_desc f1) (f_hdr f1) (f_prod f1) in
+  f_hdr (fst (file_headers 113 true renamed)) = f_hdr f1 /\ snd (file_headers 113 true renamed) = EncB64.
+Proof. vm_compute. split; reflexivity. Qed.
